@@ -41,7 +41,7 @@ def call_work(inp):
         for (res, err), pr, log in EX.runs(call, max_paths=400):
             law[(res, err)] = law.get((res, err), 0) + pr
         known = True
-    except TooManyPaths:
+    except (TooManyPaths, rng.ReplayDiverged):
         rng.seed_real(inp.get("seed", 0))
         law = {call(): 0}
         known = False
